@@ -11,7 +11,8 @@ def run(R, ctx):
         R, ctx, name="hash",
         gens=[(1, families.hash_reread(execgen_hash.hash_cmd))],
         nprog=(500, 8000), corpus="exec_c10",
-        extra_lines=families.refused_changes_nothing(random.Random(R.seed * 31 + 10), 120 if R.tier == "quick" else 2000) + families.arith_grid("hash"),
+        extra_lines=families.refused_changes_nothing(random.Random(R.seed * 31 + 10), 120 if R.tier == "quick" else 2000) + families.arith_grid("hash") +
+        families.large_container_programs(random.Random(R.seed * 131 + 10), 60 if R.tier == "quick" else 1500, "hash"),
         what="hash commands (HSET with one to four pairs incl. repeated fields and odd argument counts, HSETNX, HGET, HMGET, HGETALL, HKEYS, "
              "HVALS, HLEN, HEXISTS, HSTRLEN, HDEL down to the empty hash, HINCRBY at the int64 limits, HINCRBYFLOAT incl. inf/nan/overflow, "
              "HRANDFIELD with no/positive/negative/extreme counts and WITHVALUES) interleaved with SET/DEL/EXPIRE/PERSIST/TTL/TYPE/EXISTS/RENAME "
